@@ -389,10 +389,11 @@ def cfg0 : Config := { basepath := b!"/b", layerdirs := b!"/b/L", buildRoot := b
 def lb : Layer := { name := b!"b0", layerPath := b!"/b/L/b0", state := S_mountable, cmounts := [⟨b!"/dev", b!"/dev", b!"rbind"⟩] }
 def lx : Layer := { name := b!"x", base := b!"b0", layerPath := b!"/b/L/x", state := S_mountable, cmounts := [⟨b!"/dev", b!"/dev", b!"rbind"⟩, ⟨b!"/pk", b!"$$base/pk", b!"bind"⟩] }
 def d0 : Defs := { layers := [lb, lx], order := [b!"b0", b!"x"] }
-/-- host with / and /dev mounted, /dev present; the third mutating operation is made to fail -/
-def w0 : World := { fs := [(b!"/dev", .dir)], kt := { mnts := [⟨1, 0, b!"0:1", [47], [47], b!"ext4", b!"/dev/sda", [], [], []⟩, ⟨2, 1, b!"0:5", [47], b!"/dev", b!"devtmpfs", b!"devtmpfs", [], [], []⟩] }, faultAt := some 3 }
+/-- host with / and /dev mounted, /dev present; the fourth fault point (the mkdir after the propagation call, which is a fault point of its own) is made to fail -/
+def w0 : World := { fs := [(b!"/dev", .dir)], kt := { mnts := [⟨1, 0, b!"0:1", [47], [47], b!"ext4", b!"/dev/sda", [], [], []⟩, ⟨2, 1, b!"0:5", [47], b!"/dev", b!"devtmpfs", b!"devtmpfs", [], [], []⟩] }, faultAt := some 4 }
 def exX : List Expanded := [⟨b!"/b/L/x/build/dev", b!"/dev", b!"rbind", b!"/dev", b!"/dev"⟩, ⟨b!"/b/L/x/build/pk", b!"/b/L/b0/pk", b!"bind", b!"/pk", b!"$$base/pk"⟩]
 
+set_option maxHeartbeats 2000000 in
 /-- a real run of the model: overlay call, /dev rbind, propagation call, then the injected
     fault stops it (the hypotheses `Emitted … s`, `op ∈ s`, structural / propagation are all
     inhabited) -/
